@@ -24,7 +24,7 @@ QUICK = [("all-1",   "AllTokens",   ALL_TOKENS,   2, 1),
          ("all-l1",  "AllTokens",   ALL_TOKENS,   1, 2)]
 THOROUGH = [("all-2",   "AllTokens",   ALL_TOKENS,   2, 2),
             ("small-3", "SmallTokens", SMALL_TOKENS, 3, 1),
-            ("small-23", "SmallTokens", SMALL_TOKENS, 2, 3)]
+            ("tiny-23", "TinyTokens", ["a", ".", "|", "\\"], 2, 3)]
 
 
 def regex_cfg(path, tokens, maxlen, maxset, extra=""):
